@@ -113,10 +113,12 @@ pub fn run(args: &Args, rep: &mut Report) {
         todo.push(("replay".into(), Op::parse(&lines)));
     } else {
         for c in 0..cases {
-            let prof = ["plan", "batch", "funnel", "deps", "wide", "manyres", "phname"][(c % 7) as usize];
+            let prof = ["plan", "batch", "funnel", "deps", "wide", "manyres", "phname", "rejbar"][(c % 8) as usize];
             let mut cfg = GenCfg::profile(prof);
-            cfg.p_dup_name = 0;
-            cfg.p_unknown_dep = 0;
+            if prof != "rejbar" {
+                cfg.p_dup_name = 0;
+                cfg.p_unknown_dep = 0;
+            }
             let mut g = Gen::new(Rng::new(seed, c), cfg);
             todo.push((format!("gen:{}:{}:{}", prof, seed, c), g.case()));
         }
@@ -153,6 +155,35 @@ pub fn run(args: &Args, rep: &mut Report) {
         if rep.samples.is_empty() && r0.layout.as_ref().map(|l| l.nontrivial()).unwrap_or(false) {
             let mut rng = Rng::new(seed ^ 0x1417, k as u64);
             rep.sample(Json::obj(vec![("original", Json::Arr(case_lines(ops).into_iter().map(Json::s).collect())), ("transformed_twin", Json::Arr(case_lines(&transform(ops, &mut rng, 7)).into_iter().map(Json::s).collect())), ("layout_of_both", Json::s(l0.clone()))]));
+        }
+        // the same accepted registrations without the rejected calls (unknown dependency, taken name)
+        // in between: what a rejected call leaves behind must not influence the plan
+        let rejected: Vec<usize> = r0.built.infos.values().filter(|i| i.outcome.starts_with("panic ")).map(|i| i.tag).collect();
+        if !rejected.is_empty() {
+            fn without(ops: &[Op], tags: &[usize]) -> Vec<Op> {
+                ops.iter()
+                    .filter(|o| match o {
+                        Op::Sys { tag, .. } | Op::Batch { tag, .. } => !tags.contains(tag),
+                        _ => true,
+                    })
+                    .map(|o| match o {
+                        Op::Batch { tag, name, deps, ctl, t, n, inner } => Op::Batch { tag: *tag, name: name.clone(), deps: deps.clone(), ctl: *ctl, t: *t, n: *n, inner: without(inner, tags) },
+                        o => o.clone(),
+                    })
+                    .collect()
+            }
+            let rej_of = |c: &[Op]| -> Vec<usize> { eval_case(c, None, &pool).built.infos.values().filter(|i| i.outcome.starts_with("panic ")).map(|i| i.tag).collect() };
+            let twin = without(ops, &rejected);
+            let (l1, _) = layout_of(&twin, None, &pool);
+            rep.count("twins_without_the_rejected_calls");
+            if l1 != l0 && !reported {
+                reported = true;
+                let small = shrink(ops, &mut |c: &[Op]| {
+                    let rj = rej_of(c);
+                    !rj.is_empty() && layout_of(&without(c, &rj), None, &pool).0 != layout_of(c, None, &pool).0
+                });
+                rep.violate("C19", "impl", "", format!("leaving out the rejected registrations (tags {:?}) changes the layout of the accepted ones: {} (with the rejected calls) vs {} (without) [{}]", rejected, l0, l1, label), case_lines(&small));
+            }
         }
         if !mdiff.is_empty() && !reported {
             // the model lays this sequence out differently: look harder for a twin of this very
